@@ -7,12 +7,17 @@ C18.sib   every decoder sibling (Decoder::push, SymbolConverter::process_char,
           constructors) reads the same decode table constant; every encoder
           indexes the encode table; base16 decodes with radix 16.
 
+C18.enc   every value an encoder uses to index its alphabet is below the
+          alphabet's size, by the masks and shifts that produce it (bit-width
+          upper bound of the index expression at each call of the indexing
+          helper): no input octets can make `display` / `encode` panic.
+
 The incremental state machines, padding and chunking independence are
 value-level and are not decided.
 """
 import re
 
-from mirlib import walk, const_value, deep_strip
+from mirlib import walk, const_value, deep_strip, show
 
 B64 = "ABCDEFGHIJKLMNOPQRSTUVWXYZabcdefghijklmnopqrstuvwxyz0123456789+/"
 B32HEX = "0123456789ABCDEFGHIJKLMNOPQRSTUV"
@@ -135,6 +140,7 @@ def run(ctx):
     rule_tail(ctx, F)
     rule_state(ctx, F)
     rule_idx(ctx, F)
+    rule_enc(ctx, F)
 
 
 # ---------------------------------------------------------------------------
@@ -359,6 +365,64 @@ def rule_state(ctx, F):
 # ---------------------------------------------------------------------------
 # the group buffer index stays inside the buffer whatever push returned
 # ---------------------------------------------------------------------------
+
+def _ub(t, cap=255):
+    """upper bound of an octet expression built from masks, shifts and ors (everything is a u8 here)"""
+    t = deep_strip(t)
+    cv = const_value(t)
+    if cv is not None:
+        return cv
+    if t[0] == "cast":
+        return _ub(t[2], cap)
+    if t[0] == "phi":
+        return max(_ub(a, cap) for a in t[2])
+    if t[0] == "bin":
+        op = t[1].replace("Unchecked", "")
+        a, c = _ub(t[2], cap), _ub(t[3], cap)
+        if op == "BitAnd":
+            return min(a, c)
+        if op == "Shr" and const_value(deep_strip(t[3])) is not None:
+            return a >> c
+        if op == "Shl" and const_value(deep_strip(t[3])) is not None:
+            return min(a << c, cap)
+        if op == "BitOr" or op == "BitXor":
+            return min((1 << max(a.bit_length(), c.bit_length())) - 1, cap)
+        if op == "Add":
+            return min(a + c, cap)
+        if op in ("Rem",) and const_value(deep_strip(t[3])) is not None and c > 0:
+            return c - 1
+    return cap
+
+
+def rule_enc(ctx, F):
+    R = "C18.enc"
+    ctx.floor(R, 20)
+    n = 0
+    for p, b in sorted(F.bodies.items()):
+        if not re.match(r"^utils::base(16|32|64)::", p.lstrip("<")) or "::test" in p:
+            continue
+        for bi in sorted(b.reachable_blocks()):
+            t = b.blocks[bi]["t"]
+            if t["k"] != "assert" or t["msg"][0] != "bounds":
+                continue
+            ln = const_value(b.term_of_operand(t["msg"][1]))
+            it = deep_strip(b.term_of_operand(t["msg"][2]))
+            while it[0] == "cast":
+                it = deep_strip(it[2])
+            if ln is None or it[0] != "arg" or b.nargs != 1:
+                continue
+            # an indexing helper `fn ch(i: u8) -> char { ALPHABET[i as usize] }`: the obligation is on its callers
+            for cb, cbb, ct in F.callers_of("^" + re.escape(p) + "$"):
+                n += 1
+                arg = cb.term_of_operand(ct["args"][0])
+                ub = _ub(arg)
+                per = "%s#%d" % (p.split("::")[-2], n)
+                ctx.ob(R, cb, "alphabet index at call %s" % per, ub < ln,
+                       "%s passes a value of up to %d to the helper that indexes a %d-entry alphabet (%s): some input "
+                       "octets make the encoder panic" % (cb.path.split("::")[-1], ub, ln, show(deep_strip(arg))[:80]),
+                       cb.where(cbb), detail="upper bound %d < %d" % (ub, ln))
+    ctx.call_sites += n
+
 
 def rule_idx(ctx, F):
     """The incremental decoders collect a group in `buf[self.next]` and reset
